@@ -403,6 +403,16 @@ class ArrNormDomain(NormDomain):
     def _scalar(self, v):
         return isinstance(v, Sym) or (isinstance(v, Const) and isinstance(v.v, (int, float, complex)) and not isinstance(v.v, bool))
 
+    def isinstance(self, v, names):
+        if isinstance(v, Arr):
+            strs = [n for n in names if isinstance(n, str)]
+            if strs and all(n in ('float', 'int', 'Number', 'Real', 'complex', 'Complex', 'Integral', 'str', 'dict', 'bool') for n in strs):
+                return False          # an array is not a number
+            if any(n in ('ndarray', 'Iterable') for n in strs):
+                return True
+            return None
+        return NormDomain.isinstance(self, v, names)
+
     def _shape_from(self, v):
         """Concrete trailing shape from a shape value (leading unknown batch dims dropped)."""
         if isinstance(v, Const) and isinstance(v.v, int):
